@@ -162,6 +162,8 @@ def main(tier, seed, replay=None):
     cases = gen_cases(rng, tier)
     workdir = os.path.join(COQ, "run", "C18")
     results = run_harness(binp, "scenario", cases, workdir, timeout_ms=10000)
+    cases, results, nrel = with_release("scenario", cases, results, workdir, timeout_ms=10000)
+    run.coverage["release_profile_cases_differing_from_dev"] = nrel
     terms, idx = [], []
     kinds = {}
     distinct = set()
